@@ -231,15 +231,17 @@ class _ManifoldDynamicsService(_DynamicsServiceBase):
         Tuple[np.ndarray, np.ndarray, np.ndarray, np.ndarray]
             The stm of the manifold.
         """
-        cache_key = self.make_key(id(self.orbit), steps, self.forward)
+        cache_key = self.make_key(id(self.orbit), steps, 1)
         
         def _factory() -> Tuple[np.ndarray, np.ndarray, np.ndarray, np.ndarray]:
+            # Floquet directions are defined by the forward monodromy matrix for
+            # both branches; only the branch propagation runs backward in time.
             return _compute_stm(
                 self.var_dynsys,
                 self.orbit.initial_state,
                 self.period,
                 steps=steps,
-                forward=self.forward,
+                forward=1,
             )
         
         return self.get_or_create(cache_key, _factory)
